@@ -28,6 +28,7 @@ Clauses of the property and where they are:
 * each LM trial = minimiser of the damped weighted least squares — `lm_trial_minimises`
 * hardening pass: item-wise = batched (`update_item_local`, `update_entry_local`, `normal_matrix_separable`,
   `lm_Ak_separable`), trial histories compose (`lm_Ak_append`), calls are independent (`calls_independent`)
+* hardening pass 2: `failed_call_atomic`, `successful_call`, `history_without_failed_call`, `twins_independent`
 -/
 namespace PP.GNStep
 open Finset Matrix
@@ -634,5 +635,66 @@ theorem calls_independent (calls : List (Nat × ℝ × ℝ × List (Res ℝ → 
       = some (lmSystem calls[i].1 calls[i].2.1 calls[i].2.2.1 calls[i].2.2.2.1 calls[i].2.2.2.2.1 calls[i].2.2.2.2.2.1
                 calls[i].2.2.2.2.2.2.1 calls[i].2.2.2.2.2.2.2) := by
   simp [List.getElem?_map, List.getElem?_eq_getElem hi]
+
+/-! ## hardening pass 2: failing calls are atomic, histories skip them, copies are independent -/
+
+/-- **A failing call is atomic.**  If building the system, the solver or the split fails, `gnCall` fails as a whole and
+the caller keeps exactly the parameters it had: nothing is written before every stage succeeded. -/
+theorem failed_call_atomic (eps : ℝ) (sys : List (Param ℝ) → Option (Sys ℝ)) (solve : Sys ℝ → Option (Nat × (Nat → ℝ)))
+    (ps : List (Param ℝ))
+    (h : sys ps = none ∨ (∃ S, sys ps = some S ∧ solve S = none) ∨
+         (∃ S len D, sys ps = some S ∧ solve S = some (len, D) ∧ trainTotal ps ≠ len)) :
+    gnCall eps sys solve ps = none ∧ callOrKeep (gnCall eps sys solve) ps = ps := by
+  have hn : gnCall eps sys solve ps = none := by
+    rcases h with h | ⟨S, h1, h2⟩ | ⟨S, len, D, h1, h2, h3⟩
+    · simp [gnCall, h]
+    · simp [gnCall, h1, h2]
+    · simp [gnCall, h1, h2, (step_raises_iff eps ps len D).mpr h3]
+  exact ⟨hn, by simp [callOrKeep, hn]⟩
+
+/-- a successful call changes the parameters exactly by `update_parameter` with the solver's `D` -/
+theorem successful_call (eps : ℝ) (sys : List (Param ℝ) → Option (Sys ℝ)) (solve : Sys ℝ → Option (Nat × (Nat → ℝ)))
+    (ps out : List (Param ℝ)) (h : gnCall eps sys solve ps = some out) :
+    ∃ S len D, sys ps = some S ∧ solve S = some (len, D) ∧ stepUpdate eps ps len D = some out := by
+  unfold gnCall at h
+  cases hs : sys ps with
+  | none => simp [hs] at h
+  | some S =>
+    cases hv : solve S with
+    | none => simp [hs, hv] at h
+    | some r =>
+      obtain ⟨len, D⟩ := r
+      simp only [hs, hv] at h
+      exact ⟨S, len, D, rfl, hv, h⟩
+
+example : gnCall (α := ℝ) 1 (fun _ => none) (fun _ => none) [] = none := rfl
+
+/-- **Continuing after a failed call gives the history without it**, wherever in the history it happened and whatever the
+other calls are (any state type: parameters, or parameters together with `param_groups`). -/
+theorem history_without_failed_call {σ : Type} (pre post : List (σ → Option σ)) (c : σ → Option σ) (s : σ)
+    (h : c (runCalls pre s) = none) : runCalls (pre ++ [c] ++ post) s = runCalls (pre ++ post) s := by
+  simp only [runCalls, List.foldl_append, List.foldl_cons, List.foldl_nil]
+  have : callOrKeep c (List.foldl (fun s c => callOrKeep c s) s pre) = List.foldl (fun s c => callOrKeep c s) s pre := by
+    simp only [runCalls] at h
+    unfold callOrKeep at h ⊢
+    rw [h]; rfl
+  rw [this]
+
+/-- **Copies are independent.**  With two optimizers used in any interleaving, each ends where its own calls alone would
+have taken it: the model has no state outside the object a call is made on. -/
+theorem twins_independent {σ : Type} (cs : List (Bool × (σ → Option σ))) (s : σ × σ) :
+    (runTwins cs s).1 = runCalls ((cs.filter (·.1)).map (·.2)) s.1 ∧
+    (runTwins cs s).2 = runCalls ((cs.filter (fun c => !c.1)).map (·.2)) s.2 := by
+  induction cs generalizing s with
+  | nil => simp [runTwins, runCalls]
+  | cons c cs ih =>
+    obtain ⟨b, f⟩ := c
+    cases b
+    · have := ih (s.1, callOrKeep f s.2)
+      simp only [runTwins, List.foldl_cons, runCalls] at this ⊢
+      simpa using this
+    · have := ih (callOrKeep f s.1, s.2)
+      simp only [runTwins, List.foldl_cons, runCalls] at this ⊢
+      simpa using this
 
 end PP.GNStep
